@@ -550,9 +550,15 @@ func (ctx *Context) evaluate() {
 
 			step := IntType(1)
 			length := _b - _a
-			if length < 0 {
+			if _b < _a {
 				step = -1
-				length = -length
+				length = _a - _b
+			}
+			// _b-_a wraps when the bounds are far apart; a wrapped (negative)
+			// length means the range is certainly too long
+			if length < 0 || length >= 512 {
+				ctx.Error = errors.New("不能一次性创建过长的数组")
+				return
 			}
 			length += 1
 
